@@ -9,6 +9,7 @@ import (
 	sdk "github.com/cosmos/cosmos-sdk/types"
 
 	ammtypes "github.com/elys-network/elys/x/amm/types"
+	commitmenttypes "github.com/elys-network/elys/x/commitment/types"
 	assetprofiletypes "github.com/elys-network/elys/x/assetprofile/types"
 	parametertypes "github.com/elys-network/elys/x/parameter/types"
 	tokenomicstypes "github.com/elys-network/elys/x/tokenomics/types"
@@ -230,7 +231,25 @@ func (a *GovEdgeAgent) structural(s *Sim) {
 	var msg sdk.Msg
 	desc := ""
 	pools := app.AmmKeeper.GetAllPool(ctx)
-	switch r.IntN(9) {
+	switch r.IntN(10) {
+	case 9:
+		nb := pick(r, []int64{0, 1, 1 << 62})
+		f := pick(r, []int64{0, 1, 1 << 62})
+		mv := pick(r, []int64{0, 1, 1 << 40})
+		which := r.IntN(3)
+		m := &commitmenttypes.MsgUpdateVestingInfo{Authority: gov, BaseDenom: DenomEDEN, VestingDenom: DenomELYS, NumBlocks: 20, VestNowFactor: 3, NumMaxVestings: 5}
+		switch which {
+		case 0:
+			m.NumBlocks = nb
+			desc = fmt.Sprintf("commitment.VestingInfo.NumBlocks=%d", nb)
+		case 1:
+			m.VestNowFactor = f
+			desc = fmt.Sprintf("commitment.VestingInfo.VestNowFactor=%d", f)
+		default:
+			m.NumMaxVestings = mv
+			desc = fmt.Sprintf("commitment.VestingInfo.NumMaxVestings=%d", mv)
+		}
+		msg = m
 	case 0, 1:
 		if len(pools) == 0 {
 			return
